@@ -156,6 +156,7 @@ Theorem open_error_table f :
   match f with
   | FMissing => reader_open f = OpenErr (KSyscall ENOENT 1)
   | FDir => reader_open f = OpenErr (KSyscall EISDIR 2)
+  | FNoPath e => reader_open f = OpenErr (KSyscall e 1)
   | FFile bs =>
       ((length bs < 16)%nat -> reader_open f = OpenErr KNotInitialized) /\
       ((16 <= length bs)%nat ->
@@ -164,7 +165,7 @@ Theorem open_error_table f :
          (h_magic0 h = MAGIC0 -> h_magic1 h = MAGIC1 -> h_version h <> 0 -> h_generation h <> 0 -> h_size h < 72 -> reader_open f = OpenErr KMalformed))
   end.
 Proof.
-  destruct f as [| | bs]; try reflexivity. unfold reader_open. split.
+  destruct f as [| | bs | e]; try reflexivity. unfold reader_open. split.
   - intros H. destruct (Nat.ltb_spec (length bs) 16); [reflexivity | lia].
   - intros H. destruct (Nat.ltb_spec (length bs) 16); [lia|]. cbv zeta. set (d := decode_header bs). split.
     + intros C. destruct (Z.eqb_spec (h_magic0 d) MAGIC0), (Z.eqb_spec (h_magic1 d) MAGIC1); cbn [andb negb]; try reflexivity.
@@ -179,13 +180,13 @@ Lemma fresh_header_ok : hdr_ok (fresh_header 2).
 Proof. unfold hdr_ok, fresh_header, MAGIC0, MAGIC1, SEGSIZE; cbn. lia. Qed.
 
 (* a file the daemon had to re-create: exactly the documented 72 bytes, openable, record = r *)
-Theorem repair_recreated f r : f <> FDir -> (forall h, reader_open f <> OpenOk h) -> ceb_ok r ->
+Theorem repair_recreated f r : f <> FDir -> (forall e, f <> FNoPath e) -> (forall h, reader_open f <> OpenOk h) -> ceb_ok r ->
   exists bs, after_first_publication f r = Some bs /\ bs = encode_header (fresh_header 2) ++ encode_ceb r /\
     length bs = 72%nat /\ (exists h, reader_open (FFile bs) = OpenOk h) /\ decode_ceb bs 16 = Some r.
 Proof.
-  intros Hd Hn Hr. exists (encode_header (fresh_header 2) ++ encode_ceb r).
+  intros Hd Hp Hn Hr. exists (encode_header (fresh_header 2) ++ encode_ceb r).
   split.
-  { unfold after_first_publication. destruct f as [| | bs]; [|congruence|].
+  { unfold after_first_publication. destruct f as [| | bs | e]; [|congruence| |exfalso; apply (Hp e); reflexivity].
     - reflexivity.
     - destruct (reader_open (FFile bs)) as [h|k] eqn:E; [exfalso; apply (Hn h); reflexivity | reflexivity]. }
   split; [reflexivity|]. split; [apply segment_is_72_bytes|]. split.
